@@ -117,3 +117,19 @@ impl<K: ExpiredKey<E>, E: Expiration, V: Copy> KeyExpList<K, E, V> {
         self.min_exp = new_min_exp;
     }
 }
+
+#[cfg(feature = "verif-hooks")]
+impl<K: Copy, E: Copy, V: Copy> KeyExpList<K, E, V> {
+    /// Read-only view (feature `verif-hooks`): every physically stored entry mapped by `f`, and the
+    /// cached earliest expiration.
+    pub fn verif_state<T, F: Fn(&K, &V) -> T>(&self, f: F) -> (Vec<T>, E) {
+        (self.buffer.iter().map(|e| f(&e.key, &e.val)).collect(), self.min_exp)
+    }
+
+    /// Field-for-field copy that keeps the buffer's capacity.
+    pub fn verif_clone(&self) -> Self {
+        let mut buffer = Vec::with_capacity(self.buffer.capacity());
+        buffer.extend_from_slice(&self.buffer);
+        Self { buffer, min_exp: self.min_exp }
+    }
+}
